@@ -324,7 +324,12 @@ func runC20(w *core.World, r *core.Report) {
 		}
 		r.OK("R5", "reset path scanned for flag-byte writes", resetFn.Pos(), fmt.Sprintf("%d functions, %d direct stores", len(fns), n))
 	}
-	// ---- R6 -----------------------------------------------------------------------------------
+	checkFinishAlwaysSaves(w, r, "R6", "the restart written by a graceful end (or any other progress) is not stored, and the next request resumes the old position: ")
+}
+
+// checkFinishAlwaysSaves (C20 R6, C07 R11): Finish saves whenever the engine was initialised and has
+// a persister - no other condition (nothing changed, no move made) may skip the save.
+func checkFinishAlwaysSaves(w *core.World, r *core.Report, rule, consequence string) {
 	if fin := anchor(w, r, "engine", "(*DefaultEngine).Finish"); fin != nil {
 		nsave := 0
 		cut := cutWithHelpers(w, fin, func(fn *ssa.Function, cut *core.Cut) {
@@ -346,8 +351,8 @@ func runC20(w *core.World, r *core.Report) {
 			}
 		}, 2)
 		hit, path := core.Reach(core.Entry(fin), core.IsReturn, cut)
-		r.Check(hit == nil && nsave > 0, "R6", "engine.(*DefaultEngine).Finish: saves on every path of an initialised engine with a persister", fin.Pos(), "every return passes Save, initd==false or pe==nil",
-			"Finish can return without saving although the engine ran and has a persister: the restart written by a graceful end (or any other progress) is not stored, and the next request resumes the old position: "+w.PathString(path))
+		r.Check(hit == nil && nsave > 0, rule, "engine.(*DefaultEngine).Finish: saves on every path of an initialised engine with a persister", fin.Pos(), "every return passes Save, initd==false or pe==nil",
+			"Finish can return without saving although the engine ran and has a persister: "+consequence+w.PathString(path))
 	}
 }
 
